@@ -824,7 +824,10 @@ class _ProbeContextInjectorNode(_ProbeNode):
             List[str]: A list of context keys that the processor will add or create
             as a result of execution.
         """
-        return [cls.context_key]
+        processor_keys = list(getattr(cls.processor, "get_created_keys", lambda: [])())
+        return [cls.context_key] + [
+            key for key in processor_keys if key != cls.context_key
+        ]
 
     def __str__(self) -> str:
         """
@@ -866,6 +869,13 @@ class _ProbeContextInjectorNode(_ProbeNode):
                 )
         else:
             _ContextObserver.update_context(context, self.context_key, probe_result)
+
+        # Publish sequences materialised by derive preprocessors (e.g. sweeps)
+        created = getattr(self.processor, "_last_created_sequences", None)
+        if isinstance(created, dict):
+            for key, value in created.items():
+                if key != self.context_key:
+                    _ContextObserver.update_context(context, key, value)
 
         return Payload(data, context)
 
